@@ -1666,3 +1666,51 @@ def rx_14(ctx, rep):
         raise AnalysisError('RX-14: the ambiguity engine fails its built-in examples')
     rep.stat('rx14_patterns', n)
     rep.minimum('RX-14', 6)
+
+
+# ---------------------------------------------------------------------------------------------------------------
+def src_1(ctx, rep):
+    """What the tokenizer and the diff parser get is the decoded text, cut into lines - nothing else touches it (seed
+    rt14-C06: `code.strip()` for eval_input drops the NEWLINE the grammar derives and breaks the round trip)."""
+    rep.rule('SRC-1', 'in Grammar.parse the source text is only decoded (python_bytes_to_unicode) and cut into lines '
+                      '(split_lines(..., keepends=True)); no other function or method is applied to it on its way to the tokenizer')
+    GRAMMAR = 'parso/grammar.py'
+    f = ctx.prog.func(GRAMMAR, 'Grammar.parse')
+    params = set(f.all_params())
+    # the text variable: the argument of the decoder; the lines variable: assigned from split_lines
+    text_vars, line_vars = set(), set()
+    for n in walk_own(f.node):
+        if isinstance(n, ast.Call) and norm(n.func).split('.')[-1] == 'python_bytes_to_unicode' and n.args and isinstance(n.args[0], ast.Name):
+            text_vars.add(n.args[0].id)
+        if isinstance(n, ast.Assign) and isinstance(n.value, ast.Call) and norm(n.value.func).split('.')[-1] == 'split_lines':
+            line_vars |= {t.id for t in n.targets if isinstance(t, ast.Name)}
+    if not text_vars or not line_vars:
+        raise AnalysisError('SRC-1: decode / split_lines steps of Grammar.parse not found')
+    n_sites = 0
+    for n in walk_own(f.node):
+        if not isinstance(n, (ast.Assign, ast.AugAssign, ast.AnnAssign)):
+            continue
+        tg = n.targets if isinstance(n, ast.Assign) else [n.target]
+        names = {x.id for t in tg for x in ast.walk(t) if isinstance(x, ast.Name)}
+        v = n.value
+        if names & text_vars:
+            n_sites += 1
+            callee = norm(v.func).split('.')[-1] if isinstance(v, ast.Call) else None
+            ok = (callee == 'python_bytes_to_unicode') or (isinstance(v, ast.Call) and isinstance(v.func, ast.Attribute) and v.func.attr == 'read'
+                                                           and not v.args) or (isinstance(v, ast.Name) and v.id in params)
+            rep.ob('SRC-1', GRAMMAR, f.qual, norm(n), ok and isinstance(n, ast.Assign),
+                   'the source text is changed by something other than the decoder before it is tokenized: the tree no longer '
+                   'spells the input')
+        if names & line_vars:
+            n_sites += 1
+            ok = isinstance(v, ast.Call) and norm(v.func).split('.')[-1] == 'split_lines' and v.args and isinstance(v.args[0], ast.Name) \
+                and v.args[0].id in text_vars and any(k.arg == 'keepends' and isinstance(k.value, ast.Constant) and k.value.value is True for k in v.keywords)
+            rep.ob('SRC-1', GRAMMAR, f.qual, norm(n), ok and isinstance(n, ast.Assign),
+                   'the line list handed to the tokenizer is not split_lines(<decoded text>, keepends=True)')
+    # mutating calls on the line list
+    for n in walk_own(f.node):
+        if isinstance(n, ast.Call) and isinstance(n.func, ast.Attribute) and isinstance(n.func.value, ast.Name) \
+                and n.func.value.id in line_vars and n.func.attr in ('pop', 'append', 'insert', 'remove', 'extend', 'clear', 'sort', 'reverse'):
+            n_sites += 1
+            rep.ob('SRC-1', GRAMMAR, f.qual, norm(n), False, 'the line list is changed before it is tokenized')
+    rep.minimum('SRC-1', 3)
